@@ -21,6 +21,10 @@ ALL_CLAIMED = ["C03","C04","C07","C10","C12","C16","C17","C18","C20"]
 TRUST = "Trusted: the simulator stubs (fidelity rules in DESIGN.md §2.3), the seam rewriter (its report of unseamed sites is in the evidence), the harness's own reference codec/models. Sampling, not proof."
 
 CLAIMED = {
+ "C03": dict(engine="wire-world", cat="exploration",
+   text="Seeded search over (wire type, byte string) inputs, each decoded by the random-access reader with all lazy containers forced and then re-decoded and skipped under seeded delivery schedules of a simulated reader (segmentation incl. 1-byte and zero-length reads, EOF delivered with data, seekable or not) and injected faults (peer death at an offset, I/O error at an offset); invariants: no panic, bounded reader calls, canonical re-encoding by an independent encoder and by the library, skip/decode length agreement, delivery independence, faults inside the value are never accepted.",
+   ref="DESIGN.md §4 C03", note=TRUST+" The call budget 1024*len+65536 stands for termination; nothing is required of Skip on a seekable reader that was cut short.",
+   tech="deterministic simulation of the caller-supplied reader (seeded delivery schedules and fault injection), reference encoder as oracle"),
  "C16": dict(engine="plugin-world", cat="fault_enumeration",
    text="Systematic enumeration of every protocol step x reply action x truncation offset for one plugin (whole and 1-byte writes), plus seeded search over 0-3 concurrent plugins with independent fault scripts, interleavings, chunkings, options and frame fast-path thresholds; oracles over the recorded per-plugin history (gate, goodbye exactly once, cleanup/reaping, exit status iff failure and naming the plugin, liveness in steps). The floor is exhaustive for one plugin; everything beyond is sampled.",
    ref="DESIGN.md §4 C16", note=TRUST+" Plugins always terminate; pipes are reliable; API_VERSION and method names come from plugin/api.thrift; no disk faults.",
